@@ -125,10 +125,14 @@ Proof.
     rewrite rowsLoop_S. cbv zeta.
     change (concat ((ft :: filt) :: rest)) with ((ft :: filt) ++ concat rest) in *.
     rewrite app_length in *. simpl length in *.
-    replace (Nat.min (S n) (S (length filt + length (concat rest)))) with (S n) by lia.
-    simpl Nat.eqb at 1. rewrite Nat.eqb_refl. simpl negb. cbv iota.
-    replace (S n) with (length (ft :: filt)) at 1 2 by (simpl; lia).
-    rewrite firstn_app_exact, skipn_app_exact.
+    assert (Hmin : Nat.min (S n) (S (length filt) + length (concat rest)) = S n) by lia.
+    rewrite Hmin.
+    change (S n =? 0)%nat with false. cbv iota. rewrite Nat.eqb_refl. simpl negb. cbv iota.
+    assert (Hfn : firstn (S n) ((ft :: filt) ++ concat rest) = ft :: filt).
+    { rewrite <- Hrl. apply (firstn_app_exact N (ft :: filt) (concat rest)). }
+    assert (Hsn : skipn (S n) ((ft :: filt) ++ concat rest) = concat rest).
+    { rewrite <- Hrl. apply (skipn_app_exact N (ft :: filt) (concat rest)). }
+    rewrite Hfn, Hsn.
     assert (Hwfilt : wf filt) by (now inversion Hrw).
     assert (Hft : (ft < 256)%N) by (now inversion Hrw).
     rewrite processRow_png by (try assumption; lia).
@@ -206,4 +210,31 @@ Proof.
     rewrite Nat2Z.inj_mul, Z2Nat.id by lia. rewrite Z.mod_mul by lia. reflexivity.
   - now rewrite repeat_length.
   - apply wf_repeat0.
+Qed.
+
+Lemma unfilter_rows_none_iff bpp n : forall rows prior,
+  Forall (row_ok (S n)) rows ->
+  (unfilter_rows bpp prior rows = None <-> Exists (fun r => (4 < hd 0 r)%N) rows).
+Proof.
+  induction rows as [|r rest IH]; intros prior Hrows.
+  - simpl. split; [discriminate|]. intros Hex. inversion Hex.
+  - inversion Hrows as [|r' rest' [Hrl Hrw] Hrest]; subst r' rest'.
+    destruct r as [|ft filt]; [simpl in Hrl; lia|].
+    split.
+    + simpl. destruct (ft <=? 4)%N eqn:E.
+      * destruct (unfilter_rows bpp _ rest) as [o|] eqn:E2; [discriminate|].
+        intros _. apply Exists_cons_tl. apply (proj1 (IH (unfilter_row ft bpp filt prior) Hrest)). exact E2.
+      * intros _. apply Exists_cons_hd. simpl. apply N.leb_gt. exact E.
+    + apply unfilter_rows_invalid.
+Qed.
+
+Lemma png_error_iff predictor colors bpc columns rows :
+  10 <= predictor <= 15 -> 1 <= colors -> In bpc [1; 2; 4; 8; 16] -> 1 <= columns ->
+  colors * bpc * columns + 8 <= maxInt ->
+  Forall (row_ok (S (Z.to_nat (spec_rowbytes colors bpc columns)))) rows ->
+  (decode (Some predictor) (Some colors) (Some bpc) (Some columns) (concat rows) = None
+   <-> Exists (fun r => (4 < hd 0 r)%N) rows).
+Proof.
+  intros Hp Hc Hb Hn Hmax Hrows. rewrite png_decode_ok by assumption.
+  unfold spec_png. apply (unfilter_rows_none_iff _ _ _ _ Hrows).
 Qed.
